@@ -64,7 +64,18 @@ class MultiAgentProblemsConverter:
             combined_problem.goal_state_predicates = list(
                 set(combined_problem.goal_state_predicates)
             )
-            combined_problem.goal_state_fluents.update(agent_problem.goal_state_fluents)
+            # expression trees are hashed by identity, so the same numeric goal stated by two
+            # agents has to be recognised by its text.
+            known_numeric_goals = {
+                goal.to_mathematical() for goal in combined_problem.goal_state_fluents
+            }
+            for numeric_goal in agent_problem.goal_state_fluents:
+                goal_text = numeric_goal.to_mathematical()
+                if goal_text in known_numeric_goals:
+                    continue
+
+                known_numeric_goals.add(goal_text)
+                combined_problem.goal_state_fluents.add(numeric_goal)
 
         return combined_problem
 
